@@ -53,10 +53,13 @@ def versions12():
     return out
 
 
-def versions34(limit):
-    out = ['%d.%d.%d' % t for t in itertools.product(COMP34, repeat=3)]
-    out += ['%d.%d.%d.%d' % t for t in itertools.product(COMP34[:4], repeat=4)]
-    return out[:limit]
+def versions34(tier):
+    # three- and four-component versions both (an earlier revision cut this list off before the first four-component entry)
+    c3 = [0, 9, 10, 100] if tier == 'quick' else [0, 1, 9, 10, 99, 100]
+    c4 = [0, 9, 10] if tier == 'quick' else [0, 1, 9, 10]
+    out = ['%d.%d.%d' % t for t in itertools.product(c3, repeat=3)]
+    out += ['%d.%d.%d.%d' % t for t in itertools.product(c4, repeat=4)]
+    return out
 
 
 def work_pairs(chunk, st):
@@ -169,7 +172,7 @@ def around(ver):
     return sorted(outs)
 
 
-EXTRA = {'OpenSSH': ['10.0', '10.1', '12.3', '100.0'], 'Dropbear SSH': ['2024.85', '2100.1', '0.100'], 'libssh': ['0.10.0', '0.10.5', '0.11.1', '1.0.0', '10.0.0']}
+EXTRA = {'OpenSSH': ['10.0', '10.1', '12.3', '100.0', '10.0.0.1', '9.9.0.10'], 'Dropbear SSH': ['2024.85', '2100.1', '0.100', '99.0.0.1', '2025.88.0.1'], 'libssh': ['0.10.0', '0.10.5', '0.11.1', '1.0.0', '10.0.0', '0.10.6.1']}
 
 
 def cli_tasks():
@@ -389,11 +392,13 @@ def run(tier, seed):
     st = evidence.Stats()
     tasks = []
     v12 = versions12()
-    v34 = versions34(150 if tier == 'quick' else 300)
+    v34 = versions34(tier)
     if tier == 'quick':
         v12 = [v for v in v12 if all(int(c) in (0, 1, 2, 9, 10, 11, 99, 100, 2019, 2020) for c in v.split('.'))]
+    # one joint set: versions of different component counts are compared with each other as well
+    vall = v12 + v34
     for product in PRODUCTS:
-        for vs in (v12, v34):
+        for vs in (vall,):
             step = 8
             for lo in range(0, len(vs), step):
                 tasks.append((product, vs, lo, min(lo + step, len(vs))))
@@ -412,13 +417,13 @@ def run(tier, seed):
     validated = H.validate_traces(vcases, st)
     return evidence.finish(
         PID, tier, seed, st, t0,
-        rule='for OpenSSH, Dropbear, libssh (software objects parsed from real banners): all ordered pairs of %d versions with 1-2 components over '
-             '%s; all ordered pairs of %d versions with 3-4 components over %s; all pairs and triples of a 60-element mixed set with patch suffixes; '
+        rule='for OpenSSH, Dropbear, libssh (software objects parsed from real banners): all ordered pairs of the joint set of %d versions with 1-2 components over '
+             '%s and %d versions with 3 and with 4 components over %s; all pairs and triples of a 60-element mixed set with patch suffixes; '
              'end-to-end: for every first-appeared version of a clean algorithm in the DB, banners just below/at/above it and multi-digit versions, '
              '"(rec) +name" iff server version >= first-appeared version; the same for every server of 2-3 servers of one product at different versions '
              'audited in ONE invocation, in every order; compatibility ranges: every ordered pair (and triple; every 29th at quick) of the distinct '
              'version-information lists of the database folded by the tool = numeric newest "appeared" / oldest "removed" of the single lists, for server, '
-             'client and both; the "(gen) compatibility" line of four servers under every permutation of each of their lists' % (len(v12), COMP if tier != 'quick' else 'a 10-value subset', len(v34), COMP34),
+             'client and both; the "(gen) compatibility" line of four servers under every permutation of each of their lists' % (len(v12), COMP if tier != 'quick' else 'a 10-value subset', len(v34), 'small sets of 0/1/9/10/99/100'),
         assumptions=['numeric order = component-wise integer comparison with zero padding', 'pairs equal up to trailing zeros / patch level only need antisymmetry and transitivity'],
         exhaustive=True, traces_validated=validated)
 
